@@ -18,7 +18,7 @@ RULE = (
     "get_metric result in the model's acceptable set (exact-set at position, else interpolated with extension + warning, "
     "else partition products by level, per block at-position before interpolated), broadcastability, KeyError iff the "
     "model has no candidate; integrate (all axis orders), average (constant field, NaN data), derivative, cumint and "
-    "metric_weighted diff/interp compared with their definition in terms of the metric get_metric returned; the data is "
+    "metric_weighted diff/interp and the two-axis derivative compared with their definition in terms of the metric get_metric returned; the data is "
     "float64, or int64 / bool / float32 (integrate and average must not depend on the data's type beyond its values). Class = "
     "(verdict kind, deciding level, per-block source at/interp, #axes); non-trivial iff more than one registered "
     "candidate or an interpolation or a product is involved."
@@ -362,6 +362,34 @@ def run_case(ctx, desc):
             ctx.violation("average-definition", "average with NaNs != sum_valid(data*metric)/sum_valid(metric)")
     except Exception as e:
         ctx.violation("average-definition", f"raised {type(e).__name__}: {str(e)[:200]}")
+    # derivative over several axes at once: the difference over all of them divided by the metric of the whole axis set at
+    # the result's position (not a chain of one-axis derivatives through intermediate positions)
+    if len(q) >= 2 and dt != "bool":
+        q2 = list(q[:2])
+        to2 = {}
+        for x in q2:
+            frm_x = desc["apos"][x]
+            tos_x = [p for p in cm[x] if p != "center"] if frm_x == "center" else ["center"]
+            if tos_x:
+                to2[x] = tos_x[desc["dseed"] % len(tos_x)]
+        if len(to2) == 2:
+            try:
+                df2 = g.diff(arr, q2, to=to2, boundary="extend")
+                with warnings.catch_warnings():
+                    warnings.simplefilter("ignore")
+                    m2 = g.get_metric(df2, q2)
+            except Exception:
+                df2 = m2 = None
+            if m2 is not None and set(m2.dims) <= set(df2.dims):
+                ctx.judged(("derivative-2-axes", tuple(desc["apos"][x] for x in q2), tuple(to2[x] for x in q2)), True)
+                try:
+                    with warnings.catch_warnings():
+                        warnings.simplefilter("ignore")
+                        dv2 = g.derivative(arr, q2, to=to2, boundary="extend")
+                    if not same_by_name(dv2, df2 / m2):
+                        ctx.violation("derivative-definition", f"derivative over {q2} to {to2} != diff over both axes / metric of the axis set at the result position")
+                except Exception as e:
+                    ctx.violation("derivative-definition", f"derivative over {q2} raised {type(e).__name__}: {str(e)[:200]}")
     # derivative / metric_weighted / cumint on the first queried axis, when a shift exists
     a = q[0]
     frm = desc["apos"][a]
